@@ -33,6 +33,7 @@ type frame struct {
 	rets    []retInfo
 	loopHead map[*loop]*headInfo
 	parent  *frame
+	innerEntry map[[2]*loop][]Term
 }
 
 type retInfo struct {
@@ -649,6 +650,13 @@ func (fr *frame) loopClauses(l *loop) (invs []*Clause, decs []*Clause) {
 			decs = append(decs, d)
 		}
 	}
+	if fr.prefix == "" {
+		for _, cd := range c.LoopCand {
+			if (cd.Loop == 0 || cd.Loop == l.ord) && fr.fx.candActive[CandKey{cd, l.ord}] {
+				invs = append(invs, cd)
+			}
+		}
+	}
 	return
 }
 
@@ -666,12 +674,27 @@ func (fr *frame) enterLoop(l *loop, st *State) *State {
 		}
 		t, err := ev.EvalBool(c.E)
 		if err != nil {
+			if c.Kind == "candidate" {
+				fx.candFail[CandKey{c, l.ord}] = true
+				continue
+			}
 			fr.specError(c, err)
 			continue
 		}
 		if facetLevel[c.Facet] == fr.level {
+			n0 := len(fx.enc.Obls)
 			fr.obligeSplit("inv-entry", fmt.Sprintf("loop%d.%s", l.ord, clauseName(c)), t, l.header.Instrs[0].Pos(), c.Facet, c.Tags)
+			if c.Kind == "candidate" {
+				for _, o := range fx.enc.Obls[n0:] {
+					o.Cand = &CandKey{c, l.ord}
+				}
+			}
 		}
+	}
+	// enclosing loops' measures must not increase inside this loop (implicit invariant, checked like any other)
+	outer := fr.enclosing(l)
+	for _, L := range outer {
+		fr.nestedVariant(L, l, st, "inv-entry")
 	}
 	// havoc what the loop modifies
 	ns := st.Clone()
@@ -696,9 +719,15 @@ func (fr *frame) enterLoop(l *loop, st *State) *State {
 		if !fr.clauseActive(c) {
 			continue
 		}
+		if c.Kind == "candidate" && fx.candFail[CandKey{c, l.ord}] {
+			continue
+		}
 		if t, err := ev2.EvalBool(c.E); err == nil {
 			fr.assume(t)
 		}
+	}
+	for _, L := range outer {
+		fr.nestedVariant(L, l, ns, "assume")
 	}
 	hi := &headInfo{st: ns.Clone()}
 	for _, d := range decs {
@@ -726,12 +755,30 @@ func (fr *frame) backEdge(l *loop, cond Term, st *State) {
 		if !fr.clauseActive(c) || facetLevel[c.Facet] != fr.level {
 			continue
 		}
+		if c.Kind == "candidate" && fr.fx.candFail[CandKey{c, l.ord}] {
+			continue
+		}
 		t, err := ev.EvalBool(c.E)
 		if err != nil {
+			if c.Kind == "candidate" {
+				fr.fx.candFail[CandKey{c, l.ord}] = true
+				continue
+			}
 			fr.specError(c, err)
 			continue
 		}
+		n0 := len(fr.fx.enc.Obls)
 		fr.obligeSplit("inv-step", fmt.Sprintf("loop%d.%s", l.ord, clauseName(c)), t, l.header.Instrs[0].Pos(), c.Facet, c.Tags)
+		if c.Kind == "candidate" {
+			for _, o := range fr.fx.enc.Obls[n0:] {
+				o.Cand = &CandKey{c, l.ord}
+			}
+		}
+	}
+	if fr.level == 0 {
+		for _, L := range fr.enclosing(l) {
+			fr.nestedVariant(L, l, st, "inv-step")
+		}
 	}
 	hi := fr.loopHead[l]
 	if hi != nil && fr.level == 0 {
@@ -905,3 +952,55 @@ func (fr *frame) localValue(name string, st *State, l *loop) (Value, bool) {
 }
 
 var _ = strings.Contains
+
+// enclosing lists the loops that strictly contain l.
+func (fr *frame) enclosing(l *loop) []*loop {
+	li := fr.fx.E.loops(fr.fn)
+	var out []*loop
+	for _, L := range li.loops {
+		if L != l && L.body[l.header] {
+			out = append(out, L)
+		}
+	}
+	return out
+}
+
+// nestedVariant handles the implicit invariant of an inner loop that the measure of an enclosing loop L does not
+// grow: relative to its value d_in at the inner loop's entry (so a strict decrease before the inner loop survives it).
+func (fr *frame) nestedVariant(L, inner *loop, st *State, mode string) {
+	hi := fr.loopHead[L]
+	if hi == nil || len(hi.measure) == 0 {
+		return
+	}
+	_, decs := fr.loopClauses(L)
+	ev := fr.env(st, fr.entry, L)
+	key := [2]*loop{L, inner}
+	if fr.innerEntry == nil {
+		fr.innerEntry = map[[2]*loop][]Term{}
+	}
+	for i, d := range decs {
+		if i >= len(hi.measure) {
+			break
+		}
+		t, err := ev.EvalInt(d.E)
+		if err != nil {
+			continue
+		}
+		switch mode {
+		case "inv-entry":
+			din := fr.fx.enc.Def("measure.in", "Int", t)
+			for len(fr.innerEntry[key]) <= i {
+				fr.innerEntry[key] = append(fr.innerEntry[key], "")
+			}
+			fr.innerEntry[key][i] = din
+		case "assume":
+			if i < len(fr.innerEntry[key]) && fr.innerEntry[key][i] != "" {
+				fr.assume(Le(t, fr.innerEntry[key][i]))
+			}
+		default:
+			if i < len(fr.innerEntry[key]) && fr.innerEntry[key][i] != "" {
+				fr.oblige(mode, fmt.Sprintf("loop%d.outer-measure-loop%d", inner.ord, L.ord), Le(t, fr.innerEntry[key][i]), inner.header.Instrs[0].Pos())
+			}
+		}
+	}
+}
